@@ -81,10 +81,3 @@ Theorem C24_nested_refuted :
   fetch Z.eqb (nest q_wd (Some 2, None)) no_window <> win no_window (win (Some 2, None) (q_list Z.eqb q_wd)).
 Proof. vm_compute. discriminate. Qed.
 Print Assumptions C24_nested_refuted.
-
-(* oracle-limit-zero-returns-all-rows: OraBuilder.SELECT tests `if not limit and not offset`, so LIMIT 0 counts as "no limit":
-   q[:0], q[3:1], q.limit(0) select every row on Oracle (documented ROWNUM semantics, not executed) *)
-Theorem C24_oracle_limit_zero_refuted :
-  ora_sem (ora_select (ora_section (Some 0, None))) [1; 2; 3] = [1; 2; 3] /\ win (Some 0, None) [1; 2; 3] = (@nil Z).
-Proof. split; reflexivity. Qed.
-Print Assumptions C24_oracle_limit_zero_refuted.
